@@ -10,14 +10,15 @@ from harness import core
 ID = 'C33'
 TITLE = 'JSON import reconstructs the input'
 PROPS = ['Props/C33']
-DISABLED = True
 RULE = ('random JSON values (nesting <= 6, <= ~60 nodes) over a small shared key pool (so that sibling records share '
         'keys, the same key is a scalar in one record and an object/array in another, and table names collide: key '
         '"a_b" next to "a"->"b", "" next to non-dict items), empty arrays/objects, top-level scalar/dict/list, all '
         'scalar kinds (int incl. > 2**64, float incl. -0.0/nan/inf, bool, str incl. non-ASCII and ";" "_", null), and in '
         '~45% of the cases includes/excludes built from paths of the document, their prefixes, and junk separators; '
         'fixed corpus = the documents of import_json_test.py and the findings; some cases go through parse_file on a '
-        'temporary file. A case is non-trivial when the import makes at least two tables or filters something.')
+        'temporary file; a few wide documents per run (arrays, record lists and objects of 33-257 entries); thorough '
+        'adds all pairs of 18 small documents in three shapes. A case is non-trivial when the import makes at least two '
+        'tables or filters something.')
 TRUSTED = ['Model/JsonImport.v is hand-written; it is compared on every run with import_json.dumps / Tables.add_row / '
            'Tables._tables on the generated documents (dumped tables, their order, column order and types, row counts)',
            'json.loads (CPython): the model starts from the Python value it returns (dict keys unique)',
@@ -516,7 +517,7 @@ def gen_wide(rng):
 
 def cases(ctx):
   cs = list(FIXED)
-  for _ in range(ctx.n(1500, 40000)):
+  for _ in range(ctx.n(700, 40000)):
     cs.append(gen_case(ctx.rng))
   for _ in range(ctx.n(6, 60)):
     cs.append(gen_wide(ctx.rng))
@@ -561,7 +562,7 @@ def correspond(ctx):
     ctx.bump('tables%d' % min(len(out), 6))
     if filtered:
       ctx.bump('with includes/excludes')
-  bad = ctx.run_cases('import', ['Grist.Model.JsonImport'], 'case_ok', coq, shard=250, timeout=600)
+  bad = ctx.run_cases('import', ['Grist.Model.JsonImport'], 'case_ok', coq, shard=ctx.n(120, 500), timeout=900)
   for i in bad[:5]:
     data, name, incs, excs = kept[i]
     ctx.broken('correspondence:Model/JsonImport.v import_json differs from imports/import_json.py',
